@@ -19,10 +19,10 @@ type Val struct {
 	B bool
 }
 
-func Null() Val          { return Val{K: 'n'} }
-func Int(i int64) Val    { return Val{K: 'i', I: i} }
-func Str(s string) Val   { return Val{K: 's', S: s} }
-func Bool(b bool) Val    { return Val{K: 'b', B: b} }
+func Null() Val            { return Val{K: 'n'} }
+func Int(i int64) Val      { return Val{K: 'i', I: i} }
+func Str(s string) Val     { return Val{K: 's', S: s} }
+func Bool(b bool) Val      { return Val{K: 'b', B: b} }
 func (v Val) IsNull() bool { return v.K == 'n' || v.K == 0 }
 
 func (v Val) Equal(o Val) bool {
@@ -234,22 +234,22 @@ type Event struct {
 
 // Res is the result of one Op.
 type Res struct {
-	ID     int         `json:"id"`
-	Err    string      `json:"err,omitempty"`
-	Panic  string      `json:"panic,omitempty"`
-	Frame  string      `json:"frame,omitempty"` // top mkdb frame of a panic
-	Stack  string      `json:"stack,omitempty"`
-	Cols   []string    `json:"cols,omitempty"`
-	Quals  []string    `json:"quals,omitempty"`
-	Rows   []Row       `json:"rows,omitempty"`
-	Tables []TableDump `json:"tables,omitempty"`
-	Trees  []Tree      `json:"trees,omitempty"`
-	Hdr    *Header     `json:"hdr,omitempty"`
-	Count  int         `json:"count,omitempty"`
-	N      int64       `json:"n,omitempty"`
-	M      int64       `json:"m,omitempty"`
-	Strs   []string    `json:"strs,omitempty"`
-	Events []Event     `json:"events,omitempty"`
+	ID     int             `json:"id"`
+	Err    string          `json:"err,omitempty"`
+	Panic  string          `json:"panic,omitempty"`
+	Frame  string          `json:"frame,omitempty"` // top mkdb frame of a panic
+	Stack  string          `json:"stack,omitempty"`
+	Cols   []string        `json:"cols,omitempty"`
+	Quals  []string        `json:"quals,omitempty"`
+	Rows   []Row           `json:"rows,omitempty"`
+	Tables []TableDump     `json:"tables,omitempty"`
+	Trees  []Tree          `json:"trees,omitempty"`
+	Hdr    *Header         `json:"hdr,omitempty"`
+	Count  int             `json:"count,omitempty"`
+	N      int64           `json:"n,omitempty"`
+	M      int64           `json:"m,omitempty"`
+	Strs   []string        `json:"strs,omitempty"`
+	Events []Event         `json:"events,omitempty"`
 	Raw    json.RawMessage `json:"raw,omitempty"`
 }
 
@@ -260,7 +260,7 @@ func (r *Res) Failed() bool { return r.Err != "" || r.Panic != "" }
 // A Cond with Op "val" is a bare operand (LHS) used as an expression.
 
 type NItem struct {
-	Kind  string   `json:"kind"`          // expr count avg
+	Kind  string   `json:"kind"`           // expr count avg
 	Expr  *Cond    `json:"expr,omitempty"` // kind expr
 	Arg   *Operand `json:"arg,omitempty"`  // count(col) / avg(col); nil for count(*)
 	Alias string   `json:"alias,omitempty"`
